@@ -189,6 +189,30 @@ DESC = {
                 "any route that bypasses with_qualifier (typed setters, direct use of builder.parts.qualifiers, blanking after into_builder()): the PURL serialises as ?repository_url= and deserialises without it"),
     "r7c16-4": ("C16", "A trailing-slash leniency (trim_end_matches('/')) runs before the version is split off.",
                 "a version ending in '/': pkg:generic/name@1.0%2F serialises as @1.0/ and reads back as 1.0"),
+    "r8c12-1": ("C12", "The 'a decoded piece must not contain /' check for namespace and subpath was factored into a shared helper that qualifier values now go through too.",
+                "a '/' in an algorithm name that is percent-escaped in a parsed PURL (checksum=SHA%2F1:ABCD is refused, SHA/1 still parses)"),
+    "r8c12-2": ("C12", "The mixed-ASCII-case branch of copy_as_lowercase sets bit 0x20 on every ASCII character instead of make_ascii_lowercase().",
+                "a name with both an ASCII upper-case letter and one of @ [ \\ ] ^ _ (SHA_256 becomes sha<DEL>256)"),
+    "r8c12-3": ("C12", "The checksum writer refuses md5 / sha1 / sha224 / sha256 / sha384 / sha512 entries whose value is not the real digest length (a well-meant feature).",
+                "exactly one of those six names together with a non-standard length - 'bytes: any byte string including empty'"),
+    "r8c12-4": ("C12", "'Natural' ordering: the sort comparator compares runs of ASCII digits by numeric value.",
+                "two names that share a prefix and then have digit runs that order differently as numbers than as strings (sha3 before sha256)"),
+    "r8c14-1": ("C14", "Same idea as r2c12-1, written independently: str::to_lowercase (final sigma) for checksum algorithm names.",
+                "a non-ASCII algorithm name with a capital sigma at the end of a word after a cased letter"),
+    "r8c14-2": ("C14", "The '?' on the result of finish is deferred until after the empty-name check; the hook is still called exactly once.",
+                "the hook fails while the name is empty (pkg:type/, or the hook cleared the name and then failed): MissingRequiredField masks the hook's own error"),
+    "r8c14-3": ("C14", "retain(|_, v| !v.is_empty()) became retain(|_, v| !v.trim().is_empty()).",
+                "a hook-written or parsed qualifier value consisting only of white space: it disappears from the reported and printed qualifiers"),
+    "r8c14-4": ("C14", "Display writes namespace and subpath segment by segment, skipping empty segments (and '.' / '..' in the subpath); the accessors still return what the hook wrote.",
+                "a hook or builder value with a leading, trailing or doubled '/', or dot segments in the subpath - and a check of the printed form that does not go through the library's own formatter or parser"),
+    "r8c16-1": ("C16", "Same idea as r6c12-2, written independently: the query is percent-decoded before it is split.",
+                "a qualifier value containing '&'"),
+    "r8c16-2": ("C16", "The formatter keeps 'already escaped' sequences in the namespace: a '%' followed by two hex digits is copied verbatim.",
+                "a literal %XX in the namespace text (%40acme comes back as @acme)"),
+    "r8c16-3": ("C16", "namespace() / version() / subpath() share a helper that tests trim().is_empty(); Display relies on them while the stored field and PartialEq keep the blank text.",
+                "a namespace, version or subpath that is non-empty but only white space"),
+    "r8c16-4": ("C16", "Same idea as r2c14-4, written independently: a checksum_is_canonical flag on Qualifiers that IndexMut forgets to reset survives into_builder().",
+                "build or parse a PURL with a checksum, into_builder(), replace the value through parts.qualifiers[\"checksum\"] = ..., build()"),
 }
 
 
@@ -211,6 +235,7 @@ def main():
     before5 = table(os.path.join(ROOT, "RESULTS-round5-before-strengthening.tsv"))
     before6 = table(os.path.join(ROOT, "RESULTS-round6-before-strengthening.tsv"))
     before7 = table(os.path.join(ROOT, "RESULTS-round7-before-strengthening.tsv"))
+    before8 = table(os.path.join(ROOT, "RESULTS-round8-before-strengthening.tsv"))
     for name, (prop, what, needs) in sorted(DESC.items()):
         d = os.path.join(ROOT, name)
         if not os.path.isdir(d):
@@ -224,10 +249,11 @@ def main():
         b5 = before5.get(name, {})
         b6 = before6.get(name, {})
         b7 = before7.get(name, {})
+        b8 = before8.get(name, {})
         meta = {
             "id": name,
             "property_broken": prop,
-            "origin": f"fresh sub-agent '{name.split('-')[0]}', change #{name.split('-')[1]}; it was given only the text of {prop} and a scratch worktree of /repo, nothing from /verif" + ("; round 2: it was also told which ideas round 1 had produced and asked for different ones" if name.startswith("r2") else "") + ("; round 3: it was also told which ideas rounds 1 and 2 had produced, and pointed at rarely exercised public API paths, call order, thresholds and continued use after a failure" if name.startswith("r3") else "") + ("; round 4: told the ideas of rounds 1-3 and asked to read the code paths end to end for small-effect defects" if name.startswith("r4") else "") + ("; round 5: told the ideas of rounds 1-4, with a focus per property: hash order / entry count / call sequences (C12), combinations of conversion, hook and input shape (C14), misbehaving sinks and sources only (C16)" if name.startswith("r5") else "") + ("; round 6: told the ideas of rounds 1-5 and asked to widen the search to the whole crate and to single build configurations" if name.startswith("r6") else "") + ("; round 7: told the ideas of rounds 1-6 and pointed at semantic slips (escaping sets, separators, parser/formatter and builder/parser asymmetries, type parameters, into_builder state, error paths)" if name.startswith("r7") else ""),
+            "origin": f"fresh sub-agent '{name.split('-')[0]}', change #{name.split('-')[1]}; it was given only the text of {prop} and a scratch worktree of /repo, nothing from /verif" + ("; round 2: it was also told which ideas round 1 had produced and asked for different ones" if name.startswith("r2") else "") + ("; round 3: it was also told which ideas rounds 1 and 2 had produced, and pointed at rarely exercised public API paths, call order, thresholds and continued use after a failure" if name.startswith("r3") else "") + ("; round 4: told the ideas of rounds 1-3 and asked to read the code paths end to end for small-effect defects" if name.startswith("r4") else "") + ("; round 5: told the ideas of rounds 1-4, with a focus per property: hash order / entry count / call sequences (C12), combinations of conversion, hook and input shape (C14), misbehaving sinks and sources only (C16)" if name.startswith("r5") else "") + ("; round 6: told the ideas of rounds 1-5 and asked to widen the search to the whole crate and to single build configurations" if name.startswith("r6") else "") + ("; round 7: told the ideas of rounds 1-6 and pointed at semantic slips (escaping sets, separators, parser/formatter and builder/parser asymmetries, type parameters, into_builder state, error paths)" if name.startswith("r7") else "") + ("; round 8: told the ideas of rounds 1-7" if name.startswith("r8") else ""),
             "change": what,
             "needs_in_order_to_manifest": needs,
             "files": {"patch": "patch.diff", "demonstration": "demo.rs (drop into purl/tests/)", "author_notes": "notes.md"},
@@ -255,6 +281,11 @@ def main():
                 "verdict": r.get("verdict"),
             },
         }
+        if b8:
+            meta["checks_before_they_were_strengthened_for_round_8"] = {
+                "note": "result with the checks at commit 2b0ba2f (the version that met round 8)",
+                "C12": b8.get("C12"), "C14": b8.get("C14"), "C16": b8.get("C16"), "verdict": b8.get("verdict"),
+            }
         if b7:
             meta["checks_before_they_were_strengthened_for_round_7"] = {
                 "note": "result with the checks at commit ee111ed (the version that met round 7)",
